@@ -123,6 +123,14 @@ def seq_ops(R, s, tier_random=False, idx=IDX, r=None):
             R.expect("def l = %s; delete_at(l, %d); l" % (S, i), newl, "delete_at:" + cls(i, n), ("del", S, i))
             R.expect("delete_at(%s, %d)" % (S, i), removed, "delete_at-result:" + cls(i, n), ("delr", S, i))
             R.expect("def l = %s; l[%d] = 'X'; l" % (S, i), rs.assign(s, i, "X"), "assign:" + cls(i, n), ("asg", S, i))
+            # the same call site evaluated again (a helper called twice, a loop body): the index means the same each time
+            twice = rs.insert_at(rs.insert_at(s, i, "P"), i, "Q")
+            R.expect("def l = %s; def put_(l_, x) insert_at(l_, %d, x); put_(l, 'P'); put_(l, 'Q'); l" % (S, i), twice, "insert_at-same-site-twice:" + cls(i, n), ("ins2", S, i))
+            R.expect("def l = %s; for x in ['P', 'Q'] do insert_at(l, %d, x) end; l" % (S, i), twice, "insert_at-in-loop:" + cls(i, n), ("ins2l", S, i))
+            R.expect("def l = %s; def ix = %d; insert_at(l, ix, 'P'); insert_at(l, ix, 'Q'); [l, ix]" % (S, i), [twice, i], "insert_at-index-variable:" + cls(i, n), ("ins2v", S, i))
+            d1, _r1 = rs.delete_at(s, i)
+            d2, _r2 = rs.delete_at(d1, i)
+            R.expect("def l = %s; for x in [1, 2] do delete_at(l, %d) end; l" % (S, i), d2, "delete_at-in-loop:" + cls(i, n), ("del2", S, i))
     if isstr:
         parts = [a for a in syms] + [a + b for a in syms for b in syms]
     else:
@@ -179,12 +187,19 @@ def run_shard(spec, ctx):
                 n = r.choice([64, 65, 128, 129, 130, 256, 257, 1000])
                 ctx.count("long_sequences")
             if r.random() < 0.5:
-                s = "".join(r.choice("abcab ") for _ in range(n))
+                # (a position is a code point: combining marks, astral characters, zero-width joiners count one each)
+                alpha = "abcab " if r.random() < 0.7 else ["a", "b", "e\u0301", "\u0301", "\U0001f600", "\u05d1\u05b0", "o\u0308\u0304", "\u200d", " ", "\u00e9"]
+                s = "".join(r.choice(alpha) for _ in range(n))
+                n = len(s)
             else:
                 s = [r.choice(SYMS_L + [2, "b"]) for _ in range(n)]
             big = [r.choice([1, -1]) * r.choice([n, n + 1, n - 1, 2 * n, 2**31, 2**40, r.randint(0, n)]) for _ in range(3)]
             S = src(s)
             k = "str" if isinstance(s, str) else "list"
+            # length counts the positions that indexing and slicing address
+            fn_ = "substr" if k == "str" else "sublist"
+            R.expect("def q = %s; [length(q), q[0 to length(q)] == q, %s(q, 0, length(q)) == q, q[length(q) - 1] == q[-1], do q[length(q)] catch all 'out of range' end]" % (S, fn_),
+                     [n, True, True, True, "out of range"], "length-vs-positions:" + k, ("len-pos", S))
             for i in big:
                 R.expect("%s[%d]" % (S, i), rs.deref(s, i), "deref:%s:%s" % (k, cls(i, n)), ("deref", S, i))
                 for j in big:
